@@ -1026,6 +1026,19 @@ impl Gen {
                 };
                 Some(Op::Advance { dt_ns: dt, dblocks: self.rng.below(2) })
             }
+            1 if self.rng.chance(1, 8) => {
+                // time and height are independent seams: many blocks in little time (a chain with fast blocks),
+                // around the block count a "week in blocks" would be
+                self.count("height_races_ahead_of_time");
+                let blocks = *self.rng.pick(&[100_799u64, 100_800, 100_801, 150_000, 250_000]);
+                Some(Op::Advance { dt_ns: self.rng.range(1, 3 * 86400) * 1_000_000_000 + self.rng.below(1_000_000_000), dblocks: blocks })
+            }
+            1 if self.rng.chance(1, 8) => {
+                // a long quiet period: more than one, more than two weeks without anybody cycling
+                self.count("long_quiet_period");
+                let days = self.rng.range(8, 40);
+                Some(Op::Advance { dt_ns: days * 86400 * 1_000_000_000 + self.rng.below(1_000_000_000), dblocks: days * 14_400 })
+            }
             1 => {
                 let secs = self.rng.range(60, 6 * 3600);
                 let blocks = match self.rng.below(3) {
